@@ -7,6 +7,7 @@ package main
 import (
 	"fmt"
 
+	"src.elv.sh/pkg/eval/vals"
 	"src.elv.sh/pkg/persistent/vector"
 )
 
@@ -35,6 +36,12 @@ func (o op) String() string {
 		return fmt.Sprintf("Sub(v%d,%d,%d)", o.V, o.I, o.J)
 	case "Index":
 		return fmt.Sprintf("Index(v%d,%d)", o.V, o.I)
+	case "EIndex":
+		return fmt.Sprintf("vals.Index(v%d,%d)", o.V, o.I)
+	case "EAssoc":
+		return fmt.Sprintf("vals.Assoc(v%d,%d,%d)", o.V, o.I, o.X)
+	case "ESlice":
+		return fmt.Sprintf("vals.Index(v%d,\"%d..%d\")", o.V, o.I, o.J)
 	}
 	return fmt.Sprintf("%s(v%d)", o.Op, o.V)
 }
@@ -158,6 +165,25 @@ func exec(recv vector.Vector, o op) (out outcome) {
 			out.R.Val = elem(x)
 		} else if x != nil {
 			out.R.Val = notInt // "rejected" must come with no value
+		}
+	case "EIndex": // the Elvish layer: $l[i]
+		creating = false
+		x, err := vals.Index(recv, o.I)
+		out.R.Ok = err == nil
+		if err == nil {
+			out.R.Val = elem(x)
+		} else if x != nil {
+			out.R.Val = notInt
+		}
+	case "ESlice": // $l[i..j]
+		x, err := vals.Index(recv, fmt.Sprintf("%d..%d", o.I, o.J))
+		if err == nil {
+			nv, _ = x.(vector.Vector)
+		}
+	case "EAssoc": // assoc $l i x
+		x, err := vals.Assoc(recv, o.I, o.X)
+		if err == nil {
+			nv, _ = x.(vector.Vector)
 		}
 	case "Iterate":
 		creating = false
